@@ -200,6 +200,8 @@ class Merged:
             self.counters["shards_run_under_python_O"] += 1
         elif mode == "K":
             self.counters["shards_run_with_keyword_calls_and_debug_logging"] += 1
+        elif mode == "T":
+            self.counters["shards_run_beside_two_hammering_threads"] += 1
         self.counters.update(res["counters"])
         self.evaluations += res["evaluations"]
         self.distinct_capped |= res["distinct_capped"]
@@ -255,9 +257,21 @@ def run_shard(mod, prop, tier, seed, index, params):
 def _shard_main(mod, prop, tier, seed, index, out):
     _limit_memory()
     plan = mod.plan(tier, seed)
-    ctx = run_shard(mod, prop, tier, seed, index, plan[index])
-    res = ctx.result()
     from vlib import procmode
+    ham = None
+    if procmode.MODE == "T":
+        from vlib import hammer
+        ham = hammer.Hammer(getattr(mod, "THREAD_HAMMER", "readonly"))
+        ham.start()
+        ham.stop_after(25.0 if tier == "quick" else 150.0)
+    ctx = run_shard(mod, prop, tier, seed, index, plan[index])
+    if ham is not None:
+        ham.stop()
+        ctx.counters["mode T: hammer calls"] += ham.calls
+        ctx.counters["mode T: hammer calls while both hammer threads ran beside the workload"] += ham.calls_with_all_threads_running
+        for op, msg in ham.violations:
+            ctx.violation(f"concurrent-call-differs:{op}", msg, {"hammer": op, "profile": ham.profile})
+    res = ctx.result()
     if procmode.MODE == "K":
         for k, v in procmode.counts.items():
             res["counters"]["mode K: " + k] = v
@@ -289,15 +303,16 @@ def _read_hashes(path):
 
 
 def _shard_mode(i):
-    """'' (the usual process), 'O' (python -O) or 'K' (keyword call style + DEBUG logging, see vlib/procmode.py)."""
-    return {2: "O", 3: "K"}.get(i % 4, "")
+    """'' (the usual process), 'O' (python -O), 'K' (keyword call style + DEBUG logging + warnings as errors, vlib/procmode.py) or
+    'T' (two more threads calling the library on data of their own while the workload runs, vlib/hammer.py)."""
+    return {1: "T", 2: "O", 3: "K"}.get(i % 4, "")
 
 
 def _spawn_shard(prop, tier, i, out, mode):
     env = dict(os.environ)
     env.pop("VERIF_PROCESS_MODE", None)
-    if mode == "K":
-        env["VERIF_PROCESS_MODE"] = "K"
+    if mode in ("K", "T"):
+        env["VERIF_PROCESS_MODE"] = mode
     # (stderr goes to a file beside the result: a child that writes more than a pipe holds - thousands of warnings, say - must not block)
     with open(out + ".stderr", "wb") as errf:
         return subprocess.Popen([sys.executable] + (["-O"] if mode == "O" else []) + ["-B", "-m", "vlib.runner", prop, "--tier", tier,
@@ -422,15 +437,36 @@ def main(argv=None):
         want = rec.get("process_mode") or ("O" if rec.get("python_optimize") else "")
         if want == "O" and not sys.flags.optimize:
             os.execv(sys.executable, [sys.executable, "-O", "-B", "-m", "vlib.runner"] + list(sys.argv[1:] if argv is None else argv))
-        if want == "K" and os.environ.get("VERIF_PROCESS_MODE") != "K":
+        if want in ("K", "T") and os.environ.get("VERIF_PROCESS_MODE") != want:
             os.execve(sys.executable, [sys.executable, "-B", "-m", "vlib.runner"] + list(sys.argv[1:] if argv is None else argv),
-                      dict(os.environ, VERIF_PROCESS_MODE="K"))
+                      dict(os.environ, VERIF_PROCESS_MODE=want))
         ctx = Ctx(prop, args.tier, seed, "replay")
         ctx.replaying = True
         _limit_memory()
+        ham = None
+        if want == "T":
+            # (schedule-dependent: the replay runs beside the hammering threads again, for up to a minute - best effort)
+            from vlib import hammer
+            ham = hammer.Hammer((rec["witness"] or {}).get("profile") or getattr(mod, "THREAD_HAMMER", "readonly"))
+            ham.start()
         try:
             with ctx.guard(300.0):
-                mod.replay(ctx, rec["witness"])
+                if isinstance(rec["witness"], dict) and "hammer" in rec["witness"]:
+                    t_end = time.time() + 30.0
+                    while time.time() < t_end and not ham.violations:
+                        time.sleep(0.2)
+                    ctx.evaluated(ham.calls)
+                    ctx.distinct(1)
+                    ctx.distinct(2)
+                else:
+                    for _round in range(20 if ham is not None else 1):
+                        mod.replay(ctx, rec["witness"])
+                        if ctx.violations:
+                            break
+            if ham is not None:
+                ham.stop()
+                for op, msg in ham.violations:
+                    ctx.violation(f"concurrent-call-differs:{op}", msg, {"hammer": op, "profile": ham.profile})
         except CaseTimeout:
             ctx.inconclusive_because("replayed case hit the watchdog")
         except MemoryError:
@@ -444,9 +480,10 @@ def main(argv=None):
         if tier == "quick" or len(plan) == 1 or args.jobs <= 1:
             sides = []
             if args.jobs > 1 and not os.environ.get("VERIF_NO_SIDE_SHARDS"):
-                # beside the in-process run, shard 0 once more in two children: under an optimising interpreter (python -O), and with
-                # keyword-style calls and DEBUG logging (vlib/procmode.py)
-                for mode in ("O", "K"):
+                # beside the in-process run, shard 0 once more in three children: under an optimising interpreter (python -O), with
+                # keyword-style calls, DEBUG logging and warnings as errors (vlib/procmode.py), and beside two hammering threads
+                # (vlib/hammer.py)
+                for mode in ("O", "K", "T"):
                     side_dir = tempfile.mkdtemp(prefix=f"vcheck-{prop}-{mode}-")
                     side_out = os.path.join(side_dir, "shard0.json")
                     sides.append((mode, _spawn_shard(prop, tier, 0, side_out, mode), side_out, side_dir))
